@@ -329,6 +329,7 @@ static std::vector<TreeSpec> make_trees(bool quick) {
 
 int main(int argc, char** argv) {
     hm::Args a = hm::parse(argc, argv);
+    hm::install_crash_reporter("ykenum");
     bool quick = a.tier == "quick";
     if (!a.replay_scenario.empty()) {
         std::vector<std::string> f;
@@ -370,6 +371,7 @@ int main(int argc, char** argv) {
         if ((idx++ % a.nshards) != a.shard) continue;
         Report rp;
         rp.part = "nvset/" + t.name;
+        hm::crash_part(rp.part, "nvset");
         double s0 = ykmc::mono_now();
         std::vector<Read> reads;
         for (auto& l : t.endpoints) {
@@ -428,6 +430,8 @@ int main(int argc, char** argv) {
             auto run = [&](const std::string* ins) {
                 std::string detail;
                 bool cov = false;
+                auto describe = [&]() { return read_str(t.name, rd, ins != nullptr ? *ins : std::string()); };
+                hm::CrashScope crash_scope(describe);
                 std::string sym = one_case(t, rd, ins, detail, cov);
                 rp.evaluations++;
                 if (cov) {
